@@ -761,7 +761,7 @@ func (mf *MultiFileAppendable) maybePrefetchAheadLocked(appID int64) {
 // callers via singleflight; bails on context cancellation.
 func (mf *MultiFileAppendable) prefetchOne(ctx context.Context, appID int64, key string, snap openAppendableSnapshot) {
 	if simhook.Enabled {
-		simhook.GoStart("prefetch")
+		simhook.GoStart("prefetch:" + key)
 		defer simhook.GoEnd()
 	}
 	_, _, _ = mf.prefetchSf.Do(key, func() (interface{}, error) {
